@@ -13,6 +13,9 @@ EXTENDS Attrs, TLC
 DFix(n) == [kind |-> "fixed", size |-> n]
 DSym    == [kind |-> "sym", size |-> 0]
 DNone   == [kind |-> "none", size |-> 0]
+\* two more encodings of an unspecified dimension that exporters write: an explicit dim_value of 0, and a dim_param that is ""
+DZero   == [kind |-> "zero", size |-> 0]
+DSymEmpty == [kind |-> "symempty", size |-> 0]
 IsDynamic(d) == d.kind # "fixed"
 
 ShapeOK(dims, shape) ==
